@@ -363,7 +363,13 @@ fn prog_once(case: &J, src_override: Option<String>) -> R<J> {
             let env = env_from_json(envj);
             for (pi, point) in points.iter().enumerate() {
                 let vals = point.as_array().ok_or("point")?;
-                let map = named_values(&wnames, &wtypes, vals)?;
+                let mut map = named_values(&wnames, &wtypes, vals)?;
+                // names the behaviour leaves out of the witness map at this point (witnesses of branches that are not executed)
+                if let Some(names) = case.get("omit").and_then(|o| o.get(pi)).and_then(|o| o.as_array()) {
+                    for n in names.iter().filter_map(|n| n.as_str()) {
+                        map.remove(&WitnessName::from_str_unchecked(n));
+                    }
+                }
                 let rr = run_point(&compiled, cmr_bytes, WitnessValues::from(map), &env, prune);
                 n_runs += 1;
                 let expected = match verdicts_env.get(ei).and_then(|row| row.as_array()) {
